@@ -326,6 +326,22 @@ let run (w : string list) : string =
         | M.Err _ -> (d, acc @ [ "err" ], true))
         (d0, [], false) (String.split_on_char ',' writes) in
     ignore dead; String.concat " / " outs
+  | [ "deliver"; en; script ] ->
+    (* script items: S:chan:q | U:q | F:flags:chan.val+chan.val...  ; final print of queues 0..9 *)
+    let s0 = { M.subs = []; queues = []; enabled = bools_of_string en; ovf = M.O } in
+    let st = List.fold_left (fun s it ->
+        match String.split_on_char ':' it with
+        | [ "S"; c; q ] -> M.subscribe s (nat_of_int (int_of_string c)) (nat_of_int (int_of_string q))
+        | [ "U"; q ] -> M.unsubscribe s (nat_of_int (int_of_string q))
+        | [ "B"; _; _ ] -> s      (* buffered, unwritten enable/disable: not the device's state, no effect on delivery *)
+        | [ "F"; fl; ss ] ->
+          let samples = List.map (fun x -> match String.split_on_char '.' x with
+              | [ c; v ] -> (nat_of_int (int_of_string c), cz_of_string v) | _ -> failwith "sample") (split '+' ss) in
+          M.deliver s { M.sf_flags = cz_of_string fl; sf_samples = samples }
+        | _ -> failwith "script") s0 (split ';' script) in
+    String.concat " " (List.init 8 (fun q ->
+        let l = M.qget st.M.queues (nat_of_int q) in
+        Printf.sprintf "q%d=%s" q (if l = [] then "-" else String.concat "|" (List.map (fun g -> String.concat "," (List.map string_of_cz g)) l))))
   | _ -> "driver-error unknown-command"
 
 let () =
